@@ -217,6 +217,32 @@ def sc_learner(cfg):
     return scenario
 
 
+def sc_transfer(cfg):
+    """a frozen TransferTransformer (copy_estimator=True, trainable=False) owns its fitted state: what its
+    owner later does to the estimator object it was built from does not change its outputs"""
+    from . import c15
+
+    TT = loader.load("mlmodel.transfer_transformer").TransferTransformer
+    sk = loader.load("mlmodel.sklearn_testing")
+
+    def scenario(C):
+        a = C.int("a")
+        model = c15.FitXYW(a)
+        X, y, w = c15._data(C, 2, "t")
+        model.fit(X, y)
+        est = TT(model, method=c15.METHODS[cfg["method"]], copy_estimator=True, trainable=False).fit(X, y)
+        Xq = sx.cur().reals("Q", 3, 1) if C.symbolic else numpy.array([[float(C.inputs.get(f"Q_{i}_0", i + 0.5))] for i in range(3)], dtype=object)
+        purity(C, est.transform, Xq, "TransferTransformer.transform", subsets=False)
+        out0 = est.transform(Xq)
+        k1 = sk.clone_with_fitted_parameters(est)
+        X2, y2, _ = c15._data(C, 2, "u")
+        model.fit(X2, y2)  # the owner reuses the source estimator
+        _cell_eq(C, est.transform(Xq), out0, "TransferTransformer(frozen-copy)/outputs-do-not-follow-the-source-estimator")
+        _cell_eq(C, k1.transform(Xq), out0, "TransferTransformer(frozen-copy)/clone_with_fitted_parameters-copy-agrees")
+
+    return scenario
+
+
 def sc_ptr(cfg):
     from . import c09
 
@@ -260,7 +286,7 @@ def sc_pickle(cfg):
     return scenario
 
 
-SCEN = dict(piecewise=sc_piecewise, dtlr=sc_dtlr, kml1=sc_kml1, cak=sc_cak, interval=sc_interval, learner=sc_learner, ptr=sc_ptr, pickle=sc_pickle)
+SCEN = dict(transfer=sc_transfer, piecewise=sc_piecewise, dtlr=sc_dtlr, kml1=sc_kml1, cak=sc_cak, interval=sc_interval, learner=sc_learner, ptr=sc_ptr, pickle=sc_pickle)
 
 
 def run_config(cfg):
@@ -275,6 +301,8 @@ def configs(tier):
     out = [dict(kind="piecewise", classifier=False), dict(kind="piecewise", classifier=True), dict(kind="dtlr"), dict(kind="kml1"), dict(kind="cak"), dict(kind="interval"), dict(kind="ptr"), dict(kind="pickle")]
     for m in range(4):
         out.append(dict(kind="learner", method=m))
+    for m in (0, 2):
+        out.append(dict(kind="transfer", method=m))
     return out
 
 
@@ -287,6 +315,7 @@ def run(ctx, rep):
     rep.add_functions("mlmodel.interval_regressor", ["IntervalRegressor.predict_all", "IntervalRegressor.predict", "IntervalRegressor.predict_sorted"])
     rep.add_functions("sklapi.sklearn_base_transform_learner", ["SkBaseTransformLearner.transform"])
     rep.add_functions("mlmodel.sklearn_testing", ["clone_with_fitted_parameters"])
+    rep.add_functions("mlmodel.transfer_transformer", ["TransferTransformer.fit", "TransferTransformer.transform"])
     rep.add_functions("mlmodel.piecewise_tree_regression", ["PiecewiseTreeRegressor.predict_leaves", "PiecewiseTreeRegressor._predict_reglin"])
     cfgs = configs(ctx.tier)
     rep.bounds = dict(batch="3 symbolic rows: all 6 orders, every single row, one 2-row sub-batch, the call repeated", routing="every assignment of the rows to buckets / sides (incl. a bucket unseen at training time)")
